@@ -1,0 +1,25 @@
+//go:build verif
+
+package app
+
+// Hooks for the deterministic-simulation harness (build tag "verif"). Not part of the shipped binary.
+
+// NewOptionsForVerif builds Options (whose fields are unexported) for an in-process Receiver.
+func NewOptionsForVerif(prefix, storage string, timeShiftBufferDepthS, receiveNrRawSegments uint64) *Options {
+	return &Options{
+		prefix:                prefix,
+		storage:               storage,
+		timeShiftBufferDepthS: timeShiftBufferDepthS,
+		receiveNrRawSegments:  receiveNrRawSegments,
+	}
+}
+
+// SimYield, when set, is called at the check-then-act windows marked with simYield(point).
+// The simulator parks the calling goroutine there and releases it when the schedule says so.
+var SimYield func(point string)
+
+func simYield(point string) {
+	if f := SimYield; f != nil {
+		f(point)
+	}
+}
